@@ -199,10 +199,14 @@ def judge(tag, cfg, names, o, lines, sel_lines, tables, files, before, problems,
             # known finding F1: the string sink of every user number is governed by the switch of the user number
             # that is *current* when the run starts (IPhreeqc::get_sel_out_string_on ignores its argument)
             eff = bool(sw.get("SelectedOutputString%d" % cur_at_run, False))
-            if eff != want_s and not string_sink_problems(eff):
+            alt = string_sink_problems(eff) if eff != want_s else pr
+            # (the other recorded mechanism, a file truncated by a redefinition, may be present at the same time)
+            if eff != want_s and not [x for x in alt if not x[0].startswith("sel-file-holds-only-the-last-definition")]:
                 problems.append(("sel-string-sink-governed-by-current-user-number",
                                  "selected output %d: string switch is %s but the sink behaved as switched %s = the switch of the current user number %d (%s)" % (
                                      u, want_s, eff, cur_at_run, tag)))
+                for fp, what in alt:
+                    problems.append(("%s user=%d" % (fp, u), "%s (%s)" % (what, tag)))
             else:
                 for fp, what in pr:
                     problems.append(("%s user=%d" % (fp, u), "%s (%s)" % (what, tag)))
